@@ -13,14 +13,26 @@ Implementation under test (real code, in-process, single-threaded):
      s2   after `producers_done_when_i_started` was read, before `launch_time` is read
      s3   while the task runs / inside a raising task generator
      s4   after the task, before the stop/retry bookkeeping
-Model: lean/St4sd/Model/Repeat.lean via drv-c13 (repaired behaviour: guardNone + killOnSuicidePoll).
-Theorems: lean/St4sd/Props/C13.lean.  Witnesses: lean/St4sd/Witness/C13.lean.
+Two kinds of cases:
+  direct    the harness itself calls `notify_all_producers_finished` (event `fin`);
+  composed  (`world` in the case) the notification is delivered by the real `ComponentState.stageIn`
+            subscription: real `ComponentState` objects (real Jobs of an experiment built from generated FlowIR,
+            real `producers` / `notifyFinished` / `_notifyProducersFinished`) for the observer - whose engine
+            is the real RepeatingEngine above - and for every other component (fake engines of
+            harness/detsim.py); events `stagein`, `pf:k` (component k is finished by the controller:
+            FINISHED / FAILED / SHUTDOWN), `px:k` (engine of k exits resp. is restarted, k stays alive).
+Model: lean/St4sd/Model/Repeat.lean + RepeatSub.lean via drv-c13 (repaired behaviour: guardNone +
+killOnSuicidePoll).  Theorems: lean/St4sd/Props/C13.lean.  Witnesses: lean/St4sd/Witness/C13.lean.
 """
 from __future__ import annotations
 
 import copy
 import datetime as _dt
+import json
 import logging
+import os
+import shutil
+import tempfile
 import threading
 import types
 
@@ -64,6 +76,83 @@ class SyncThread:
         self.target()
 
 
+
+# ----------------------------------------------------------------------------------------
+# worlds: real experiments (FlowIR -> Jobs -> graph) for the composed cases
+# ----------------------------------------------------------------------------------------
+# world = {"comps": [[stage, name, finish-kind], ...], "stage": observer's stage,
+#          "refs": [[index into comps, suffix], ...]}          (the observer's references, in order)
+
+FLOWIR_HEAD = """
+blueprint:
+  default:
+    global:
+      resourceManager:
+        config:
+          backend: simulator
+      command:
+        executable: fake_executable
+components:
+"""
+SUFFIXES = (":ref", "/out.txt:ref", "/data/x.dat:ref", ":output")
+FINISH_KINDS = ("ok", "fail", "shutdown")
+OBS = "Obs"
+
+
+def comp_ref(world, k):
+    return "stage%d.%s" % (world["comps"][k][0], world["comps"][k][1])
+
+
+def world_flowir(world):
+    out = FLOWIR_HEAD
+    for st, nm, _kind in world["comps"]:
+        out += "- name: %s\n  stage: %d\n" % (nm, st)
+    refs = [comp_ref(world, k) + suffix for k, suffix in world["refs"]]
+    out += "- name: %s\n  stage: %d\n  command:\n    arguments: %s\n" % (
+        OBS, world["stage"], " ".join(refs) if refs else "x")
+    if refs:
+        out += "  references:\n" + "".join("  - %s\n" % r for r in refs)
+    out += "  workflowAttributes:\n    repeatInterval: 5\n"
+    return out
+
+
+class Worlds:
+    """experiments by world (built once, the ComponentStates are made afresh for every case)"""
+    dir = None
+    cache = {}
+
+    @classmethod
+    def get(cls, world):
+        from harness import detsim
+        detsim.install()
+        import tests.utils as TU
+        key = json.dumps(world, sort_keys=True)
+        if key not in cls.cache:
+            if cls.dir is None:
+                cls.dir = tempfile.mkdtemp(prefix="c13-worlds-")
+            cwd = os.getcwd()
+            prev = logging.root.manager.disable
+            logging.disable(logging.CRITICAL)
+            try:
+                cls.cache[key] = TU.experiment_from_flowir(world_flowir(world), cls.dir, checkExecutables=False)
+            finally:
+                logging.disable(prev)
+                os.chdir(cwd)
+        return cls.cache[key]
+
+    @classmethod
+    def cleanup(cls):
+        cls.cache = {}
+        if cls.dir is not None:
+            shutil.rmtree(cls.dir, ignore_errors=True)
+            cls.dir = None
+
+
+def expected_producers(world):
+    """one entry per reference of the observer, in order (what `ComponentState.producers` is)"""
+    return [k for k, _suffix in world["refs"]]
+
+
 class Drv:
     """Runs one scripted case on the real RepeatingEngine."""
 
@@ -86,6 +175,109 @@ class Drv:
         self.die_fired = False
         self.kill_fired = False
         self.thread = threading.get_ident()
+        # ground truth about the producers (kept by the harness, independent of the code under test)
+        self.world = case.get("world")
+        self.truth_fin = False      # direct cases: the `fin` event was delivered
+        self.staged = False         # composed cases: the observer's stageIn() was called
+        self.finished = set()       # composed cases: components the controller has finished
+        self.sublog = []            # composed cases: [event, engine's producers-finished flag after it]
+        self.early = None           # first event after which the flag was set although truth() is False
+        self.comps = None
+        self.obs = None
+        self.producers_seen = None
+
+    def truth(self):
+        """have ALL producers of the observer finished (and was the observer staged in)"""
+        if self.world is None:
+            return self.truth_fin
+        return self.staged and all(k in self.finished for k in expected_producers(self.world))
+
+    # -- composed cases: real ComponentStates ------------------------------------------------
+    def make_components(self, E):
+        from harness import detsim
+        import networkx
+        import experiment.runtime.workflow as W
+        env = detsim.install()
+        exp = Worlds.get(self.world)
+        d = self
+        n_int, n_eng = len(env["intervals"]), len(env["ENGINES"])
+        obs_ref = "stage%d.%s" % (self.world["stage"], OBS)
+        prev = E.Engine.__dict__["engineForComponentSpecification"]
+
+        def make(cls, job):
+            return d.eng if job.reference == obs_ref else env["FakeEngine"](job)
+        E.Engine.engineForComponentSpecification = classmethod(make)
+        import reactivex
+        import reactivex.subject
+        made = []
+
+        def recording_interval(*a, **k):
+            made.append(reactivex.subject.Subject())
+            return made[-1]
+        prev_interval, reactivex.interval = reactivex.interval, recording_interval
+        try:
+            byref = {}
+            ticks = {}
+            for ref in networkx.topological_sort(exp.graph):       # producers before their consumers
+                data = exp.graph.nodes[ref]
+                stage = exp._stages[data["stageIndex"]]
+                job = stage.jobWithName(data["componentSpecification"].identification.componentName)
+                byref[ref] = W.ComponentState(job, exp.experimentGraph, create_engine=True)
+                # ComponentState.__init__ makes exactly one reactivex.interval (the 5 s state poll)
+                ticks[ref] = made[-1]
+        finally:
+            reactivex.interval = prev_interval
+            E.Engine.engineForComponentSpecification = prev
+            del env["intervals"][n_int:]
+            del env["ENGINES"][n_eng:]
+        self.comps = [byref[comp_ref(self.world, k)] for k in range(len(self.world["comps"]))]
+        self.ticks = [ticks[comp_ref(self.world, k)] for k in range(len(self.world["comps"]))]
+        self.obs = byref[obs_ref]
+        if self.obs.engine is not self.eng:
+            raise RuntimeError("observer did not get the engine under test")
+        for c in self.comps:
+            c.engine.started = True
+            # the Controller observes the state of every component from the start (this connects the
+            # published state stream, as in the running system)
+            c.stateUpdates.subscribe(on_next=lambda x: None, on_error=lambda x: None)
+        self.producers_seen = [p.specification.reference for p in self.obs.producers]
+
+    def finish_component(self, k):
+        """what the controller does to a component that is over: FINISHED / FAILED after its engine exited, or
+        SHUTDOWN (finish() while running kills the engine, the final state is set once it is gone)"""
+        import experiment.model.codes as codes
+        if k in self.finished:
+            return
+        c = self.comps[k]
+        e = c.engine
+        kind = self.world["comps"][k][2]
+        if kind == "shutdown":
+            running = e.isAlive()
+            c.finish(codes.SHUTDOWN_STATE)
+            if running:
+                e.die(codes.exitReasons["Killed"])
+        else:
+            if e.isAlive():
+                e.die(codes.exitReasons["Success" if kind == "ok" else "KnownIssue"])
+            c.finish(codes.FINISHED_STATE if kind == "ok" else codes.FAILED_STATE)
+        if c.isAlive():
+            raise RuntimeError("stand-in controller could not finish %s" % comp_ref(self.world, k))
+        self.finished.add(k)
+        self.ticks[k].on_next(0)     # the next 5 s state poll of the component: its state stream completes
+
+    def toggle_engine(self, k):
+        """the engine of a component exits (component goes to postmortem, stays alive) resp. is restarted"""
+        import experiment.model.codes as codes
+        if k in self.finished:
+            return
+        e = self.comps[k].engine
+        if e.isAlive():
+            e.die(codes.exitReasons["KnownIssue"])
+        else:
+            e._exit = None
+            e.stateUpdates.on_next(({"isAlive": True}, e))
+        if not self.comps[k].isAlive():
+            raise RuntimeError("engine exit made %s not alive" % comp_ref(self.world, k))
 
     # -- stubs ---------------------------------------------------------------------------
     def make_job(self):
@@ -199,7 +391,15 @@ class Drv:
         self.in_event = True
         try:
             if e == "fin":
+                self.truth_fin = True
                 self.eng.notify_all_producers_finished()
+            elif e == "stagein":
+                self.staged = True
+                self.obs.stageIn(stageData=False)
+            elif e.startswith("pf:"):
+                self.finish_component(int(e[3:]))
+            elif e.startswith("px:"):
+                self.toggle_engine(int(e[3:]))
             elif e == "out":
                 self.lastOut = self.clock.tick()
                 self.anyOut = True
@@ -216,6 +416,11 @@ class Drv:
                 raise ValueError(e)
         finally:
             self.in_event = False
+        flag = bool(self.eng._producers_are_finished)
+        if e == "stagein" or e[:3] in ("pf:", "px:"):
+            self.sublog.append([e, flag])
+        if flag and self.early is None and not self.truth():
+            self.early = {"after_event": e, "events_so_far": len(self.trace)}
         if not before and self.eng.cancelMonitorEvent.is_set():
             self.cancel_cause = {"kill": "external", "die": "killDelay"}.get(e, "event:" + e)
 
@@ -313,7 +518,7 @@ class Drv:
                 d.seen = set()
                 d.fire("s0")
                 d.fin_at_begin = bool(d.eng._producers_are_finished)
-                info = {"last": bool(last), "fin_at_begin": d.fin_at_begin,
+                info = {"last": bool(last), "fin_at_begin": d.fin_at_begin, "truth_at_begin": d.truth(),
                         "suicide_at_begin": bool(d.eng._suicide),
                         "cancel_at_begin": d.eng.cancelMonitorEvent.is_set(), "error": None}
                 nl = len(d.launches)
@@ -332,6 +537,7 @@ class Drv:
                         # set by the action itself
                         d.cancel_cause = "killDelay" if d.eng._suicide else "self"
                         info["self_stop_fin"] = bool(d.eng._producers_are_finished)
+                        info["self_stop_truth"] = d.truth()
                     for s in INNER:
                         d.fire(s)
                     info["executed"] = len(d.launches) > nl
@@ -355,6 +561,12 @@ class Drv:
                 self.lastOut = self.clock.tick()
                 self.anyOut = True
             self.eng = E.RepeatingEngine(self.make_job(), self.gen)
+            if self.world is not None:
+                # the controller: components are created, earlier stages / quick producers are over,
+                # the observer is staged in, then run
+                self.make_components(E)
+                for e in self.case.get("pre", []):
+                    self.ev(e)
             self.eng._prime()            # what run() does first; the events of the first `gap` come after it
             if iters:
                 self.it = iters[0]
@@ -373,7 +585,9 @@ class Drv:
         execs = [{"afterFinal": (fo is None or t > fo)} for t, _o, _a, _t in self.launches]
         return {"snaps": self.snaps, "execs": execs, "stopped": self.monitor_exited, "final": self.snapshot(),
                 "info": self.info, "cause": self.cancel_cause,
-                "avail": [a for _t, _o, a, _k in self.launches], "any_output": self.anyOut}
+                "avail": [a for _t, _o, a, _k in self.launches], "any_output": self.anyOut,
+                "sublog": self.sublog, "early": self.early, "truth_end": self.truth(),
+                "flag_end": bool(self.eng._producers_are_finished), "producers": self.producers_seen}
 
 
 # ----------------------------------------------------------------------------------------
@@ -391,21 +605,30 @@ def oracle(case, out):
         if not a:
             fails.append(("executed-before-consumable-output", {"launch": i}))
             break
-    # 2. a stop decided by the engine itself (not an external kill, not the kill delay) comes only after the
-    #    producers finished and after an execution that began after the producers' last output
+    # 2. a stop decided by the engine itself (not an external kill, not the kill delay) comes only after ALL
+    #    producers finished (the harness's own record: the `fin` event of a direct case; stage-in and the finish
+    #    of every referenced component of a composed case) and after an execution that began after the
+    #    producers' last output
     if out["cause"] == "self":
         stop = [i for i in out["info"] if "self_stop_fin" in i][0]
-        if not stop["self_stop_fin"]:
-            fails.append(("stopped-before-producers-finished", {}))
+        if not stop.get("self_stop_truth", stop["self_stop_fin"]):
+            fails.append(("stopped-before-producers-finished",
+                          {"launches": len(out["execs"]), "unfinished_at_end": unfinished_producers(case, out)}))
         elif out["final"]["consume"] and out["any_output"] and not any(e["afterFinal"] for e in out["execs"]):
             fails.append(("stopped-without-observing-final-output",
                           {"launches": len(out["execs"]), "retries": retries}))
-    # 3. bounded: polls that begin with the producers-finished flag set; the first success among them stops
+    # 2'. the notification reaches the engine when all producers are finished and not before
+    if out.get("early") is not None:
+        fails.append(("notified-before-all-producers-finished",
+                      dict(out["early"], unfinished_at_end=unfinished_producers(case, out))))
+    if out.get("truth_end") and not out.get("flag_end"):
+        fails.append(("all-producers-finished-but-never-notified", {}))
+    # 3. bounded: polls that begin with all producers finished; the first success among them stops
     polls = 0
     for k, i in enumerate(out["info"]):
         if i["last"]:
             continue
-        if i["fin_at_begin"]:
+        if i.get("truth_at_begin", i["fin_at_begin"]):
             polls += 1
             if polls > retries + 1:
                 fails.append(("kill-delay-expired-engine-keeps-polling" if i["suicide_at_begin"]
@@ -419,6 +642,14 @@ def oracle(case, out):
                 fails.append(("kill-delay-expired-engine-keeps-polling", {"poll": k}))
                 break
     return fails
+
+
+def unfinished_producers(case, out):
+    w = case.get("world")
+    if w is None:
+        return None
+    done = {int(e[3:]) for e, _f in out.get("sublog", []) if e.startswith("pf:")}
+    return sorted({comp_ref(w, k) for k in expected_producers(w) if k not in done})
 
 
 # ----------------------------------------------------------------------------------------
@@ -473,7 +704,147 @@ def gen_case(rng, tier):
     return {"cfg": cfg, "iters": iters}
 
 
+
+NAMES = ("simulation", "A", "B")
+
+
+def gen_world(rng):
+    """components of 1-3 stages (names re-used across stages on purpose), the observer in the last stage with 0-5
+    references (several references to one producer, references to earlier stages in any position)"""
+    nstages = rng.choice([1, 2, 2, 2, 3])
+    last = nstages - 1
+    cands = [(st, nm) for st in range(nstages) for nm in NAMES]
+    chosen = []
+    twins = None
+    if nstages > 1 and rng.random() < 0.6:
+        nm = rng.choice(NAMES)
+        chosen = [(last, nm), (rng.randrange(last), nm)]       # same name in two stages
+        twins = list(chosen)
+    for c in rng.sample(cands, rng.randint(1, min(4, len(cands)))):
+        if c not in chosen:
+            chosen.append(c)
+    rng.shuffle(chosen)
+    chosen = chosen[:5]
+    remap = {st: i for i, st in enumerate(sorted({st for st, _nm in chosen}))}     # no empty stage
+    comps = [[remap[st], nm, rng.choice(FINISH_KINDS)] for st, nm in chosen]
+    last = len(remap) - 1 + (1 if rng.random() < 0.1 else 0)
+    refs = []
+    for _ in range(rng.choice([0, 1, 1, 2, 2, 3, 3, 4, 5])):
+        k = rng.randrange(len(comps))
+        same = [i for i, c in enumerate(comps) if c[0] == last]
+        if same and rng.random() < 0.5:
+            k = rng.choice(same)
+        if refs and rng.random() < 0.3:
+            k = rng.choice(refs)[0]                              # another reference to the same producer
+        r = [k, rng.choice(SUFFIXES)]
+        if r not in refs:
+            refs.append(r)
+    if twins is not None and rng.random() < 0.7:
+        # both components of the same name are producers
+        for t in twins:
+            if t not in chosen:
+                continue
+            k = chosen.index(t)
+            if all(r[0] != k for r in refs):
+                refs.insert(rng.randint(0, len(refs)), [k, rng.choice(SUFFIXES)])
+    if rng.random() < 0.5:
+        sign = rng.choice([1, -1])                               # earlier stages first / last
+        refs.sort(key=lambda r: sign * comps[r[0]][0])
+    return {"comps": comps, "stage": last, "refs": refs}
+
+
+def gen_case_composed(rng, tier, worlds):
+    world = rng.choice(worlds)
+    comps = world["comps"]
+    prods = sorted(set(expected_producers(world)))
+    cfg = {"retries": rng.choice([None, 0, 1, 1, 2, 3, 3, 5]),
+           "dieAfter": rng.random() < 0.3,
+           "noProd": not prods,
+           "alwaysNew": bool(prods) and rng.random() < 0.25,
+           "preOutput": bool(prods) and rng.random() < 0.3}
+    r = DEFAULT_RETRIES if cfg["retries"] is None else cfg["retries"]
+    n = rng.randint(3, 9 if tier == "quick" else 16) + r
+    iters = [{"outcome": rng.choices(["ok", "fail", "raise"], [6, 3, 1])[0]} for _ in range(n)]
+    # before the observer is staged in: every component of an earlier stage is over, a same-stage one may be
+    pre = []
+    later = []
+    for k, (st, _nm, _kind) in enumerate(comps):
+        if st < world["stage"] or rng.random() < 0.15:
+            if rng.random() < 0.3:
+                pre.append("px:%d" % k)
+            pre.append("pf:%d" % k)
+        else:
+            later.append(k)
+            if rng.random() < 0.2:
+                pre.append("px:%d" % k)        # its engine is gone at stage-in (postmortem; restarted later)
+    rng.shuffle(pre)
+    pre.append("stagein")
+    if prods and not any(k in later for k in prods):
+        # notified at stage-in: output can only predate run(); producers of earlier stages do not repeat
+        cfg["preOutput"] = rng.random() < 0.8
+        cfg["alwaysNew"] = rng.random() < 0.7
+    # afterwards: the others finish one after the other (or never), their engines exit / restart in between
+    never = [k for k in later if rng.random() < 0.15]
+    hi = max(0, n - r - 3)
+    pos = {}
+    for k in later:
+        if k in never:
+            continue
+        i = rng.randint(0, rng.randint(0, hi))
+        sl = rng.choice(SLOTS)
+        iters[i].setdefault(sl, []).append("pf:%d" % k)
+        pos[k] = (i, SLOTS.index(sl), len(iters[i][sl]) - 1)
+    for k in later:
+        for _ in range(rng.choice([0, 0, 1, 2])):
+            i = rng.randint(0, n - 1)
+            sl = rng.choice(SLOTS)
+            lst = iters[i].setdefault(sl, [])
+            lst.insert(rng.randint(0, len(lst)), "px:%d" % k)
+    live = [k for k in prods if k in later]
+    if live and all(k in pos for k in live):
+        # position of the finish that completes the set (positions inside a slot may have shifted: recompute)
+        def where(k):
+            for i, it in enumerate(iters):
+                for si, sl in enumerate(SLOTS):
+                    if "pf:%d" % k in it.get(sl, []):
+                        return (i, si, it[sl].index("pf:%d" % k))
+        fin_pos = max(where(k) for k in live)
+    elif live:
+        fin_pos = None                 # some producer never finishes: never notified
+    else:
+        fin_pos = (-1, 0, 0)           # notified at stage-in
+    # outputs: only while some producer is still running
+    for _ in range(rng.choice([0, 1, 1, 2, 3, 5])):
+        if fin_pos is None:
+            i = rng.randint(0, n - 1)
+            iters[i].setdefault(rng.choice(SLOTS), []).append("out")
+        elif fin_pos[0] >= 0:
+            i = rng.randint(0, fin_pos[0])
+            if i == fin_pos[0]:
+                ss = [sl for si, sl in enumerate(SLOTS) if si < fin_pos[1]]
+                if rng.random() < 0.3 or not ss:
+                    iters[i][SLOTS[fin_pos[1]]].insert(0, "out")
+                    fin_pos = (fin_pos[0], fin_pos[1], fin_pos[2] + 1)
+                    continue
+            else:
+                ss = list(SLOTS)
+            iters[i].setdefault(rng.choice(ss), []).append("out")
+    if cfg["dieAfter"] and fin_pos is not None and rng.random() < 0.7:
+        lo = max(fin_pos[0], 0)
+        i = rng.randint(lo, min(n - 1, lo + 3))
+        ss = [sl for si, sl in enumerate(SLOTS) if si > fin_pos[1]] if i == fin_pos[0] else list(SLOTS)
+        if ss:
+            iters[i].setdefault(rng.choice(ss), []).append("die")
+    if rng.random() < 0.1:
+        iters[rng.randint(0, n - 1)].setdefault(rng.choice(SLOTS), []).append("kill")
+    for _ in range(rng.choice([0, 0, 0, 1, 2])):
+        iters[rng.randint(0, n - 1)].setdefault(rng.choice(("gap", "gap", "s0", "s4")), []).append("adv")
+    return {"cfg": cfg, "world": world, "pre": pre, "iters": iters}
+
+
 def events_in_order(case):
+    for e in case.get("pre", []):
+        yield "pre", e
     for it in case["iters"]:
         for s in SLOTS:
             for e in it.get(s, []):
@@ -482,7 +853,7 @@ def events_in_order(case):
 
 def nontrivial(case, out):
     evs = list(events_in_order(case))
-    return (any(e == "fin" for _s, e in evs) and len(out["execs"]) >= 1
+    return (any(e == "fin" or e.startswith("pf:") for _s, e in evs) and len(out["execs"]) >= 1
             and any(s in INNER for s, _e in evs))
 
 
@@ -503,6 +874,32 @@ CORPUS = [
     {"cfg": {"retries": 3}, "iters": [{"s0": ["out"]}, {"gap": ["out"], "s3": ["kill"]}, {}, {}]},
     # waited more than 20 s with finished producers
     {"cfg": {"retries": 5, "preOutput": True}, "iters": [{"gap": ["fin"]}, {"gap": ["adv"]}, {}, {}]},
+]
+
+
+W_TWO_STAGES = {"comps": [[0, "simulation", "ok"], [1, "simulation", "ok"], [1, "A", "fail"], [0, "B", "ok"]],
+                "stage": 1, "refs": [[1, ":ref"], [0, ":ref"]]}
+W_DUPREFS = {"comps": [[0, "A", "ok"], [0, "B", "shutdown"]], "stage": 0,
+             "refs": [[0, ":ref"], [1, "/out.txt:ref"], [0, "/data/x.dat:ref"], [0, ":output"]]}
+W_EARLIER_ONLY = {"comps": [[0, "A", "ok"], [1, "A", "ok"]], "stage": 1, "refs": [[0, ":output"]]}
+
+CORPUS_COMPOSED = [
+    # producers of the same name in two stages, in both reference orders; the same-stage one finishes while the
+    # observer's task runs
+    {"cfg": {"retries": 3}, "world": W_TWO_STAGES, "pre": ["pf:3", "pf:0", "stagein"],
+     "iters": [{"s0": ["out"]}, {}, {"gap": ["out"], "s3": ["pf:1"]}, {}, {}, {}]},
+    {"cfg": {"retries": 3}, "world": dict(W_TWO_STAGES, refs=[[0, ":ref"], [1, ":ref"]]),
+     "pre": ["pf:0", "pf:3", "stagein"],
+     "iters": [{"s0": ["out"]}, {"s1": ["pf:2"]}, {"gap": ["out"], "s2": ["pf:1"]}, {}, {}, {}]},
+    # several references to one producer, another producer shut down while running, engine exits and restarts
+    {"cfg": {"retries": 1}, "world": W_DUPREFS, "pre": ["stagein"],
+     "iters": [{"s0": ["out"]}, {"gap": ["px:0"], "s3": ["pf:1"]}, {"s0": ["px:0", "out"]}, {"s4": ["pf:0"]}, {}, {}, {}]},
+    # every producer is over before stage-in: notified at stage-in
+    {"cfg": {"retries": 2, "preOutput": True, "alwaysNew": True}, "world": W_EARLIER_ONLY, "pre": ["pf:0", "stagein"],
+     "iters": [{}, {"s2": ["pf:1"]}, {}, {}, {}]},
+    # a producer never finishes: the observer keeps going
+    {"cfg": {"retries": 0}, "world": W_DUPREFS, "pre": ["stagein"],
+     "iters": [{"s0": ["out"]}, {"gap": ["pf:0"]}, {"gap": ["out"]}, {}, {"gap": ["out"]}, {}]},
 ]
 
 
@@ -550,18 +947,24 @@ def run_impl(case):
 
 
 def case_fails(case, slug):
+    """does the oracle fail with this slug on the case - and not in the way of a known finding"""
     try:
         out = run_impl(case)
     except Exception:
         return False
-    return any(w == slug for w, _d in oracle(case, out))
+    for w, d in oracle(case, out):
+        if w == slug:
+            full = {"detail": d} | (d if isinstance(d, dict) else {})
+            if not any(fn(w, case, full) for fn in CLASSIFIERS.values()):
+                return True
+    return False
 
 
 def shrink(what, case):
     from harness import common
     case = copy.deepcopy(case)
     # drop iterations from the end, then empty slots, then simplify outcomes
-    its = common.shrink_list(case["iters"], lambda c: case_fails({"cfg": case["cfg"], "iters": c}, what), 200)
+    its = common.shrink_list(case["iters"], lambda c: case_fails(dict(case, iters=c), what), 200)
     case["iters"] = its
     for it in case["iters"]:
         for s in SLOTS:
@@ -574,17 +977,66 @@ def shrink(what, case):
                     it[s].remove(e)
             if s in it and not it[s]:
                 del it[s]
-    for k in ("dieAfter", "noProd", "alwaysNew", "preOutput"):
+    for k in ("dieAfter", "alwaysNew", "preOutput") + (() if "world" in case else ("noProd",)):
         if case["cfg"].get(k):
             trial = copy.deepcopy(case)
             trial["cfg"][k] = False
             if case_fails(trial, what):
                 case["cfg"][k] = False
+    if "world" in case:
+        for e in list(case["pre"]):
+            if e.startswith("px:"):
+                trial = copy.deepcopy(case)
+                trial["pre"].remove(e)
+                if case_fails(trial, what):
+                    case["pre"].remove(e)
+        for ref in list(case["world"]["refs"]):
+            if len(case["world"]["refs"]) > 1:
+                trial = copy.deepcopy(case)
+                trial["world"]["refs"].remove(ref)
+                if case_fails(trial, what):
+                    case["world"]["refs"].remove(ref)
     return case if case_fails(case, what) else None
 
 
+def model_request(c):
+    if "world" in c:
+        return {"op": "cscript", "cfg": model_cfg(c["cfg"]), "refs": expected_producers(c["world"]),
+                "pre": list(c.get("pre", [])), "iters": model_iters(c)}
+    return {"op": "script", "cfg": model_cfg(c["cfg"]), "iters": model_iters(c)}
+
+
+def world_tags(case, out):
+    w = case["world"]
+    prods = expected_producers(w)
+    tags = ["mode:composed", "stages:%d" % (w["stage"] + 1), "refs:%d" % len(prods),
+            "producers:%d" % len(set(prods))]
+    if len(set(prods)) < len(prods):
+        tags.append("several-references-to-one-producer")
+    names = {}
+    for k in set(prods):
+        names.setdefault(w["comps"][k][1], set()).add(w["comps"][k][0])
+    if any(len(v) > 1 for v in names.values()):
+        tags.append("producers-of-one-name-in-two-stages")
+    if any(w["comps"][k][0] < w["stage"] for k in prods):
+        tags.append("producer-of-earlier-stage")
+    if len(set(range(len(w["comps"]))) - set(prods)):
+        tags.append("other-components-present")
+    log = out["sublog"]
+    at = [e for e, f in log if f]
+    if at:
+        first = at[0]
+        tags.append("notified-at-stagein" if first == "stagein" else "notified-by-a-finish")
+    else:
+        tags.append("never-notified")
+    tags += ["finish-kind:" + w["comps"][int(e[3:])][2] for e, _f in log if e.startswith("pf:")]
+    if any(e.startswith("px:") for e, _f in log):
+        tags.append("engine-exit-without-finish")
+    return sorted(set(tags))
+
+
 def check_cases(ctx, cases):
-    reqs = [{"op": "script", "cfg": model_cfg(c["cfg"]), "iters": model_iters(c)} for c in cases]
+    reqs = [model_request(c) for c in cases]
     mouts = ctx.model(reqs)
     flat_reqs = []
     for idx, case in enumerate(cases):
@@ -601,6 +1053,7 @@ def check_cases(ctx, cases):
         if any(i["error"] for i in out["info"]):
             tags.append("action-raised:" + [i["error"] for i in out["info"] if i["error"]][0])
         tags.append("launches:%d" % min(len(out["execs"]), 6))
+        tags += world_tags(case, out) if "world" in case else ["mode:direct"]
         ctx.case(case, nontrivial=nontrivial(case, out), tags=tags)
         for what, detail in oracle(case, out):
             full = {"detail": detail, "snaps": out["snaps"], "execs": out["execs"],
@@ -626,42 +1079,83 @@ def check_cases(ctx, cases):
             ic = {"self": "self", "external": "external", "killDelay": "killDelay", None: None}.get(out["cause"], out["cause"])
             ctx.compare("who set the cancel event", case,
                         "self" if mc in ("success", "retries") else mc, ic)
-            flat_reqs.append(({"op": "flat", "cfg": model_cfg(case["cfg"]), "ops": m["flat"]}, m, case))
+            if "world" in case:
+                w = case["world"]
+                ctx.compare("after every stage-in / component finish / engine exit: was notify_all_producers_finished "
+                            "called? == RepeatSub.subStep", case, m["notif"], out["sublog"])
+                ctx.compare("ComponentState.producers == one entry per data reference, in order", case,
+                            [comp_ref(w, k) for k in expected_producers(w)], out["producers"])
+                flat_reqs.append(({"op": "cflat", "cfg": model_cfg(case["cfg"]), "refs": expected_producers(w),
+                                   "ops": m["cflat"]}, m, case))
+            else:
+                flat_reqs.append(({"op": "flat", "cfg": model_cfg(case["cfg"]), "ops": m["flat"]}, m, case))
     if mouts is not None and flat_reqs:
         fouts = ctx.model([r for r, _m, _c in flat_reqs])
-        for (_r, m, case), f in zip(flat_reqs, fouts):
-            ctx.compare("Repeat.runScript == Repeat.exec on the flattened history", case,
-                        {k: m[k] for k in ("final", "execs", "cause", "pollsFin", "books", "stopped")},
-                        {k: f[k] for k in ("final", "execs", "cause", "pollsFin", "books", "stopped")})
+        for (r, m, case), f in zip(flat_reqs, fouts):
+            keys = ("final", "execs", "cause", "pollsFin", "books", "stopped")
+            if r["op"] == "cflat":
+                keys += ("sub",)
+                rel = "Repeat.runScript on the translated script == RepeatSub.cexec on the composed flat history"
+            else:
+                rel = "Repeat.runScript == Repeat.exec on the flattened history"
+            ctx.compare(rel, case, {k: m[k] for k in keys}, {k: f[k] for k in keys})
+
+
+def setup(ctx):
+    from harness import detsim
+    detsim.install()      # before experiment.runtime.* is imported for the first time
 
 
 def run(ctx):
+    setup(ctx)
     ctx.rule = ("cases = scripted histories of the real RepeatingEngine under the real CreateMonitor loop: configuration "
                 "(repeatRetries None/0/1/2/3/5, kill delay, no producers, non-repeating producer, output before run()) "
                 "x 3..21 polls with task outcomes ok/fail/generator-raises and environment events (producers finished, "
                 "new output, external kill, kill-delay timer, >20 s wait) placed at 6 interleaving points of each poll; "
-                "non-trivial = the producers-finished notification occurs, at least one task is launched and at least "
-                "one event lands inside a poll (s1-s4); distinct by canonical JSON of the case.")
+                "direct cases: the harness calls notify_all_producers_finished; composed cases: generated workflows "
+                "(1-3 stages, names re-used across stages, observer with 0-5 references incl. several to one producer "
+                "and to earlier stages in any position, other components) whose real ComponentStates deliver the "
+                "notification through the stageIn subscription while components are finished (FINISHED / FAILED / "
+                "SHUTDOWN) in generated orders before stage-in and at the interleaving points, engines exit and "
+                "restart without a finish, some producers never finish; "
+                "non-trivial = the producers-finished notification (resp. the finish of a component) occurs, at least "
+                "one task is launched and at least one event lands inside a poll (s1-s4); distinct by canonical JSON "
+                "of the case.")
     ctx.assumptions = [
-        "producers write no output after the producers-finished notification (generator never schedules it)",
+        "producers write no output after the producers-finished notification (generator never schedules it: "
+        "composed cases have output only while some referenced producer is not finished)",
+        "ComponentState.stageIn is called once per component, before run() (Controller.comp_staged_in); components of "
+        "earlier stages are finished before a component is staged in",
         "time is logical: the fake clock advances 1 ms per datetime.now() of engine.py; '>20 s since last launch' "
         "only through the scripted 'adv' event; schedule_next_instance is called but its timing decision is "
         "replaced by the script",
         "a stop caused by the configured kill delay is treated like a cancellation from outside for the "
         "'final output observed' clause (it is a forced stop by configuration)",
     ]
-    ctx.trusted.append("C13: stub Job/Task, fake clock, synchronous stand-in for the monitor thread and rx schedulers "
-                       "(harness/c13.py); restart of a repeating engine (lastExecution), optimizer, real timers "
-                       "and threads are not modelled")
+    ctx.trusted.append("C13: stub Job/Task of the engine, fake clock, synchronous stand-in for the monitor thread and rx "
+                       "schedulers (harness/c13.py); composed cases: stand-in for the Controller finishing components "
+                       "(ComponentState.finish on real ComponentStates of real Jobs), fake engines of the other "
+                       "components and trampoline scheduler of harness/detsim.py, stageIn(stageData=False); restart "
+                       "of a repeating engine (lastExecution), optimizer, real timers and threads are not modelled")
     ctx.classifiers = CLASSIFIERS
     ctx.shrinker = shrink
     rng = ctx.rng
     n = 1500 if ctx.tier == "quick" else 25000
     cases = [copy.deepcopy(c) for c in CORPUS] + [gen_case(rng, ctx.tier) for _ in range(n)]
-    check_cases(ctx, cases)
+    nw, nc = (60, 1200) if ctx.tier == "quick" else (600, 20000)
+    worlds = [gen_world(rng) for _ in range(nw)]
+    cases += [copy.deepcopy(c) for c in CORPUS_COMPOSED] + [gen_case_composed(rng, ctx.tier, worlds) for _ in range(nc)]
+    try:
+        check_cases(ctx, cases)
+    finally:
+        Worlds.cleanup()
 
 
 def replay(ctx, doc):
+    setup(ctx)
     ctx.classifiers = CLASSIFIERS
     case = doc.get("input") or doc["no_longer_checks"][-1]["input"]
-    check_cases(ctx, [case])
+    try:
+        check_cases(ctx, [case])
+    finally:
+        Worlds.cleanup()
